@@ -21,6 +21,8 @@ import (
 	"sort"
 	"strconv"
 	"strings"
+	"sync"
+	"time"
 
 	btcec "github.com/btcsuite/btcd/btcec/v2"
 	"github.com/google/uuid"
@@ -574,12 +576,55 @@ type readObs struct {
 	meta       *jnode
 	errWithKey bool
 	errText    string
+	// round 3
+	w       keystorev3.WalletFile // retained; asked again at the end of the run
+	aliased bool                  // key/id moved when the caller overwrote the buffers it had passed in
+	version int
 }
 
-func implRead(doc, pw []byte) (o readObs) {
+// sameObs: the observables of two reads of the same (document, password) agree.
+func sameObs(a, b readObs) bool {
+	return a.cls == b.cls && bytes.Equal(a.key, b.key) && bytes.Equal(a.addr, b.addr) && bytes.Equal(a.id, b.id) &&
+		(a.cls != 0 || (a.meta != nil && b.meta != nil && a.meta.coq() == b.meta.coq()))
+}
+
+// observe asks a (possibly long retained) wallet for everything the property mentions.
+func observe(w keystorev3.WalletFile) (o readObs) {
 	defer func() {
 		if r := recover(); r != nil {
 			o = readObs{cls: 2, errText: fmt.Sprint(r)}
+		}
+	}()
+	o.key = append([]byte{}, w.PrivateKey()...)
+	kp := w.KeyPair()
+	o.addr = append([]byte{}, kp.Address[:]...)
+	if id := w.GetID(); id != nil {
+		o.id = append([]byte{}, id[:]...)
+	}
+	o.meta = valueNode(w.Metadata())
+	o.version = w.GetVersion()
+	return
+}
+
+func implRead(docIn, pwIn []byte) (o readObs) {
+	defer func() {
+		if r := recover(); r != nil {
+			o = readObs{cls: 2, errText: fmt.Sprint(r)}
+		}
+	}()
+	doc, pw := append([]byte{}, docIn...), append([]byte{}, pwIn...)
+	defer func() {
+		if o.cls == 0 && o.w != nil {
+			// the caller reuses its buffers: what it was handed must not move with them
+			for i := range doc {
+				doc[i] ^= 0xa5
+			}
+			for i := range pw {
+				pw[i] ^= 0xa5
+			}
+			if o2 := observe(o.w); !sameObs(o, o2) {
+				o.aliased = true
+			}
 		}
 	}()
 	w, err := keystorev3.ReadWalletFile(doc, pw)
@@ -598,6 +643,8 @@ func implRead(doc, pw []byte) (o readObs) {
 		o.id = append([]byte{}, id[:]...)
 	}
 	o.meta = valueNode(w.Metadata())
+	o.version = w.GetVersion()
+	o.w = w
 	return
 }
 
@@ -617,11 +664,30 @@ type desc struct {
 }
 
 type ctx struct {
-	sampled map[string]bool
-	w       *cv.Writer
-	st      *cv.Stats
-	seen    map[string]bool
-	salts   map[string]bool
+	sampled   map[string]bool
+	w         *cv.Writer
+	st        *cv.Stats
+	seen      map[string]bool
+	salts     map[string]bool
+	reads     []readRec
+	news      []newRec
+	failKinds map[string]int
+}
+
+type readRec struct {
+	doc string
+	pw  []byte
+	o   readObs
+	d   desc
+	ns  int64
+}
+
+type newRec struct {
+	wf     keystorev3.WalletFile
+	first  []byte
+	secret []byte
+	addr   []byte
+	d      desc
 }
 
 // sample keeps one real case per kind for the evidence file.
@@ -643,6 +709,19 @@ func (c *ctx) sample(kind string, d desc) {
 }
 
 func (c *ctx) fail(what string, d desc) {
+	// at most 4 reports per kind of failure (the text up to the first value)
+	if c.failKinds == nil {
+		c.failKinds = map[string]int{}
+	}
+	kind := what
+	if len(kind) > 48 {
+		kind = kind[:48]
+	}
+	c.failKinds[kind]++
+	c.st.Hit("oracle-failure:" + kind)
+	if c.failKinds[kind] > 4 {
+		return
+	}
 	c.st.ImplFailures = append(c.st.ImplFailures, map[string]interface{}{"what": what, "key": d.Key, "case": d})
 }
 
@@ -665,8 +744,11 @@ func (c *ctx) addRead(doc string, pw []byte, kind, note string) {
 	} else {
 		own = "invalid"
 	}
+	t0 := time.Now()
 	o := implRead([]byte(doc), pw)
+	c.reads = append(c.reads, readRec{doc: doc, pw: append([]byte{}, pw...), o: o, ns: time.Since(t0).Nanoseconds()})
 	d.Impl = fmt.Sprintf("class=%d key=%x err=%q own=%s", o.cls, o.key, o.errText, own)
+	c.reads[len(c.reads)-1].d = d
 	c.st.Hit(fmt.Sprintf("read-outcome:impl=%d,own=%s", o.cls, own))
 	if o.cls == 0 {
 		t.addPubkey(o.key)
@@ -677,6 +759,10 @@ func (c *ctx) addRead(doc string, pw []byte, kind, note string) {
 		c.fail("ReadWalletFile panicked", d)
 	case o.errWithKey:
 		c.fail("ReadWalletFile returned an error together with a key", d)
+	case o.aliased:
+		c.fail("the key / address / id / metadata of the returned wallet changed when the caller overwrote the document and password buffers it had passed in", d)
+	case o.cls == 0 && o.version != 3:
+		c.fail(fmt.Sprintf("GetVersion() of a wallet read from a version 3 file is %d", o.version), d)
 	case own == "ok" && (o.cls != 0 || !bytes.Equal(o.key, ownKey)):
 		c.fail("a standard V3 file was not read to the key an independent implementation derives", d)
 	case (own == "mac" || own == "invalid") && o.cls == 0:
@@ -739,6 +825,7 @@ func (c *ctx) addNew(variant int, pw, secret, stream []byte, extras []extra, key
 		d.Secret = hex.EncodeToString(secret)
 	}
 	var out []byte
+	var kept keystorev3.WalletFile
 	cls := 0
 	var panicText string
 	consumed := withScriptedRand(stream, func() {
@@ -763,6 +850,7 @@ func (c *ctx) addNew(variant int, pw, secret, stream []byte, extras []extra, key
 			wf.Metadata()[e.k] = e.v
 		}
 		out = wf.JSON()
+		kept = wf
 	})
 	if cls != 0 {
 		d.Impl = "panic: " + panicText
@@ -775,6 +863,7 @@ func (c *ctx) addNew(variant int, pw, secret, stream []byte, extras []extra, key
 		c.fail("JSON() of a new wallet file is not valid JSON", d)
 		return
 	}
+	c.news = append(c.news, newRec{wf: kept, first: append([]byte{}, out...), secret: append([]byte{}, secret...), addr: addr, d: d})
 	t := newTables()
 	// what the model will ask: salt = stream[0:32], iv = stream[32:48], scrypt for 16 bytes with r = 8
 	n := 1024
@@ -883,6 +972,24 @@ func wrongPasswords(pw []byte) [][]byte {
 		bytes.TrimSpace(pw),
 		bytes.ToUpper(pw),
 		{},
+		// round 3: what a "helpful" normalisation of the password would add or remove
+		append(append([]byte{}, pw...), ' '),
+		append(append([]byte{}, pw...), '\n'),
+		append(append([]byte{}, pw...), '\r', '\n'),
+		append([]byte{'\n'}, pw...),
+		bytes.TrimRight(pw, "\r\n"),
+		bytes.TrimRight(pw, " \t\r\n"),
+		bytes.TrimLeft(pw, " \t"),
+		bytes.ToLower(pw),
+		bytes.ToValidUTF8(pw, []byte("\xef\xbf\xbd")),
+	}
+	if i := bytes.IndexByte(pw, 0); i >= 0 {
+		out = append(out, pw[:i])
+	}
+	for _, n := range []int{64, 72, 1023} {
+		if len(pw) > n {
+			out = append(out, pw[:n])
+		}
 	}
 	if len(pw) > 0 {
 		out = append(out, pw[:len(pw)-1], pw[1:])
@@ -891,8 +998,10 @@ func wrongPasswords(pw []byte) [][]byte {
 		out = append(out, fl)
 	}
 	var res [][]byte
+	seen := map[string]bool{string(pw): true}
 	for _, w := range out {
-		if !bytes.Equal(w, pw) {
+		if !seen[string(w)] {
+			seen[string(w)] = true
 			res = append(res, w)
 		}
 	}
@@ -1167,6 +1276,24 @@ func main() {
 			i++
 		}
 	}
+	// round 3: PBKDF2 files with salts and keys of other lengths (nothing may be cut or padded to 32)
+	for j, v := range []struct{ c, salt, key int }{{1, 0, 1}, {3, 64, 128}, {10, 16, 33}, {2, 8, 16}, {5, 33, 31}} {
+		kp := v3params{kdf: "pbkdf2", c: v.c}
+		key := r.Bytes(v.key)
+		pw := pws[(i+j)%len(pws)]
+		doc := v3write(r, kp, key, pw, r.Bytes(v.salt), r.Bytes(16), newID(r), fileOpts{shuffle: j%2 == 0})
+		c.addRead(doc, pw, "external-pbkdf2", fmt.Sprintf("c=%d salt=%d key=%d", v.c, v.salt, v.key))
+		bases = append(bases, base{doc, pw, key, kp})
+	}
+	// keys / IVs with leading and trailing zero bytes, all zero, all ones (nothing may be stripped; the counter wraps)
+	for j, v := range []struct{ key, iv []byte }{
+		{make([]byte, 32), r.Bytes(16)}, {append([]byte{0, 0, 1}, r.Bytes(29)...), r.Bytes(16)}, {append(r.Bytes(30), 1, 0), make([]byte, 16)},
+		{r.Bytes(48), bytes.Repeat([]byte{0xff}, 16)}, {[]byte{0}, append([]byte{0}, r.Bytes(15)...)}, {append([]byte{0}, r.Bytes(31)...), append(r.Bytes(15), 0)}} {
+		kp := v3params{kdf: []string{"scrypt", "pbkdf2"}[j%2], n: 4, r: 1, p: 1, c: 2}
+		pw := pws[j%len(pws)]
+		doc := v3write(r, kp, v.key, pw, r.Bytes(32), v.iv, newID(r), fileOpts{})
+		c.addRead(doc, pw, "external-zeros", fmt.Sprintf("key=%x iv=%x", v.key, v.iv))
+	}
 	// published vectors (Web3 Secret Storage definition) and the repository's samples
 	c.addRead(`{"crypto":{"cipher":"aes-128-ctr","cipherparams":{"iv":"6087dab2f9fdbbfaddc31a909735c1e6"},"ciphertext":"5318b4d5bcd28de64ee5559e671353e16f075ecae9f99c7a79a38af5f869aa46","kdf":"pbkdf2","kdfparams":{"c":262144,"dklen":32,"prf":"hmac-sha256","salt":"ae3cd4e7013836a3df6bd7241b12db061dbe2c6785853cce422d148a624ce0bd"},"mac":"517ead924a9d0dc3124507e3393d175ce3ff7c1e96529c6c555ce9e51205e9b2"},"id":"3198bc9c-6672-5ab3-d995-4942343ae5b6","version":3}`,
 		[]byte("testpassword"), "web3-vector-pbkdf2", "")
@@ -1197,8 +1324,9 @@ func main() {
 	}
 	st.Extra["cheap_bases"] = fmt.Sprintf("%d scrypt, %d pbkdf2", len(cheapS), len(cheapP))
 	for bi, b := range bases {
+		cheapBase := (b.kp.kdf == "scrypt" && b.kp.n*b.kp.r*b.kp.p <= 64) || (b.kp.kdf == "pbkdf2" && b.kp.c <= 10)
 		for wi, w := range wrongPasswords(b.pw) {
-			if !thorough && (bi+wi)%4 != 0 {
+			if !thorough && (bi+wi)%8 != 0 && !(cheapBase && ((bi+wi)%5 == 0 || bytes.HasSuffix(b.pw, []byte("\n")))) {
 				continue
 			}
 			c.addRead(b.doc, w, "wrong-password", "")
@@ -1214,6 +1342,9 @@ func main() {
 		}
 		for _, name := range []string{"ciphertext", "mac", "salt"} {
 			for pos := 0; pos < 128; pos++ {
+				if !thorough && bi == 2 && pos%4 != 1 { // round 3: the third base samples every 4th byte (pays for the new families)
+					continue
+				}
 				bits := []uint{uint(pos % 8)}
 				if thorough {
 					bits = []uint{0, 1, 2, 3, 4, 5, 6, 7}
@@ -1288,6 +1419,43 @@ func main() {
 		rep(`"id":"`+d.id+`",`, ``, "id-missing")
 		rep(`"id":"`+d.id+`"`, `"id":"`+strings.ToUpper(d.id)+`"`, "id-uppercase")
 	}
+	// round 3: MACs computed by a plausible other rule (another hash, the other half of the derived key, another
+	// order, a part of the ciphertext) must be rejected like any other changed MAC
+	{
+		nv := 0
+		longDone := false
+		for _, b := range cheap {
+			d := v3parse(mustTree(b.doc))
+			if !d.ok || (nv >= 2 && (longDone || len(d.ct) <= 32)) {
+				continue
+			}
+			dk := deriveOwn(b.kp, b.pw, d.salt)
+			mk, ct := dk[16:32], d.ct
+			s3 := sha3.Sum256(append(append([]byte{}, mk...), ct...))
+			s2 := sha256.Sum256(append(append([]byte{}, mk...), ct...))
+			vars := []struct {
+				name string
+				mac  []byte
+			}{{"sha3-256", s3[:]}, {"sha256", s2[:]}, {"first-half", keccak(dk[:16], ct)}, {"whole-dk", keccak(dk, ct)}, {"ciphertext-first", keccak(ct, mk)},
+				{"ciphertext-only", keccak(ct)}, {"mackey-only", keccak(mk)}}
+			if len(ct) > 32 {
+				vars = append(vars, struct {
+					name string
+					mac  []byte
+				}{"first-32-bytes", keccak(mk, ct[:32])}, struct {
+					name string
+					mac  []byte
+				}{"whole-blocks", keccak(mk, ct[:len(ct)/16*16])})
+				longDone = true
+			}
+			for _, v := range vars {
+				if m := strings.Replace(b.doc, `"`+hex.EncodeToString(d.mac)+`"`, `"`+hex.EncodeToString(v.mac)+`"`, 1); m != b.doc {
+					c.addRead(m, b.pw, "mac-variant", v.name)
+				}
+			}
+			nv++
+		}
+	}
 	// ---------- D. malformed stream ----------
 	for _, s := range []string{``, `!!not json`, `{}`, `null`, `[]`, `3`, `{"id":"6A2175E5-E553-4E25-AD1B-569A3BB0C3FD","version":1}`,
 		`{"id":"6A2175E5-E553-4E25-AD1B-569A3BB0C3FD","version":3,"crypto":{"kdf":"unknown"}}`,
@@ -1300,6 +1468,9 @@ func main() {
 	} {
 		c.addRead(s, []byte("pw"), "malformed", "")
 	}
+
+	// ---------- E. state kept across calls (round 3) ----------
+	c.stateChecks(r)
 
 	if err := c.w.Flush(); err != nil {
 		panic(err)
@@ -1323,6 +1494,233 @@ func main() {
 	st.Rule = "creations: 4 constructors x (secp256k1 keys incl. 1, 2, n-1, >2^255; custom secrets of 1,15,16,17,31,32,33,128 and random 1..128 bytes) x passwords (empty, ASCII, multi-byte UTF-8, surrounding whitespace, 1 KiB, NUL, non-UTF-8) x metadata sets (none, nil address, overrides, nested values, protected core fields, non-ASCII) under a scripted crypto/rand+uuid stream; reads: files written by the harness's own V3 writer over scrypt N in 2..2^14, r in {1,8}, p in {1,2} and PBKDF2 c in {1,2,1000,4096} (hex case, member order, indentation, extra members varied), the two published Web3 vectors, wrong passwords, every byte of ciphertext/MAC/salt flipped, every change of n/r/p/c/dklen/version, truncations, foreign kdf/prf, malformed documents. distinct = distinct (constructor, password, secret, stream, extras) or (document, password); all are non-trivial (each runs a KDF or is rejected by a specific guard)"
 	if err := st.Write(filepath.Join(*out, "stats_C07.json")); err != nil {
 		panic(err)
+	}
+}
+
+// stateChecks: the outcome of a read is a function of (document, password) alone, and what was handed out
+// stays what it was.  (a) every read of the run is repeated from 8 goroutines in another order, after all
+// the other files, wrong passwords and creations have gone through the package; (b) the cheapest files are
+// read back to back from 8 goroutines; (c) wallets are created concurrently under the real random source;
+// (d) every wallet retained from the run (read or created) is asked for its observables again.
+func (c *ctx) stateChecks(r *cv.Rand) {
+	cur := filepath.Join(c.w.Dir, "current_case.json")
+	note := func(d desc, n string) desc { d.Note += " | " + n; return d }
+	// (a)
+	order := make([]int, len(c.reads))
+	for i := range order {
+		order[i] = i
+	}
+	for i := len(order) - 1; i > 0; i-- {
+		j := r.Intn(i + 1)
+		order[i], order[j] = order[j], order[i]
+	}
+	os.WriteFile(cur, []byte(`{"phase":"second pass: all reads again, concurrently"}`), 0o644)
+	second := make([]readObs, len(c.reads))
+	jobs := make(chan int, len(order))
+	for _, i := range order {
+		jobs <- i
+	}
+	close(jobs)
+	var wg sync.WaitGroup
+	for k := 0; k < 8; k++ {
+		wg.Add(1)
+		go func() {
+			defer wg.Done()
+			for i := range jobs {
+				second[i] = implRead([]byte(c.reads[i].doc), c.reads[i].pw)
+			}
+		}()
+	}
+	wg.Wait()
+	nUnstable := 0
+	for i, rr := range c.reads {
+		c.st.Hit("second-pass-read")
+		if !sameObs(rr.o, second[i]) || second[i].aliased {
+			nUnstable++
+			if nUnstable <= 4 {
+				c.fail(fmt.Sprintf("the same document and password were read to class=%d key=%x id=%x the first time and to class=%d key=%x id=%x err=%q when read again later (concurrently with other reads)",
+					rr.o.cls, rr.o.key, rr.o.id, second[i].cls, second[i].key, second[i].id, second[i].errText), note(rr.d, "second pass"))
+			}
+		}
+	}
+	// (b)
+	{
+		idx := make([]int, len(c.reads))
+		for i := range idx {
+			idx[i] = i
+		}
+		sort.SliceStable(idx, func(a, b int) bool { return c.reads[idx[a]].ns < c.reads[idx[b]].ns })
+		var pick []int
+		nOk, nErr := 0, 0
+		for _, i := range idx {
+			o := c.reads[i].o
+			if o.cls == 0 && nOk < 16 {
+				pick = append(pick, i)
+				nOk++
+			} else if o.cls == 1 && strings.Contains(o.errText, "password") && nErr < 8 {
+				pick = append(pick, i)
+				nErr++
+			}
+		}
+		const perG = 1500
+		bad := make([]int, 8)
+		badObs := make([]readObs, 8)
+		seeds := make([]uint64, 8)
+		for k := range seeds {
+			seeds[k] = r.U64() | 1
+			bad[k] = -1
+		}
+		os.WriteFile(cur, []byte(`{"phase":"hammer: cheapest files read from 8 goroutines"}`), 0o644)
+		var wg2 sync.WaitGroup
+		for k := 0; k < 8 && len(pick) > 0; k++ {
+			wg2.Add(1)
+			go func(k int) {
+				defer wg2.Done()
+				x := seeds[k]
+				for n := 0; n < perG && bad[k] < 0; n++ {
+					x ^= x << 13
+					x ^= x >> 7
+					x ^= x << 17
+					i := pick[int(x%uint64(len(pick)))]
+					o := implRead([]byte(c.reads[i].doc), c.reads[i].pw)
+					if !sameObs(c.reads[i].o, o) {
+						bad[k], badObs[k] = i, o
+					}
+				}
+			}(k)
+		}
+		wg2.Wait()
+		c.st.Hit(fmt.Sprintf("hammer:%d files x 8 goroutines x %d reads", len(pick), perG))
+		for k := range bad {
+			if bad[k] >= 0 {
+				rr := c.reads[bad[k]]
+				c.fail(fmt.Sprintf("read concurrently from 8 goroutines, the same document and password gave class=%d key=%x err=%q instead of class=%d key=%x",
+					badObs[k].cls, badObs[k].key, badObs[k].errText, rr.o.cls, rr.o.key), note(rr.d, "hammer"))
+				break
+			}
+		}
+	}
+	// (c)
+	{
+		type made struct {
+			doc      []byte
+			secret   []byte
+			pw       []byte
+			variant  int
+			panicked string
+			wf       keystorev3.WalletFile
+		}
+		out := make([]made, 16)
+		for i := range out {
+			out[i].variant = i % 4
+			out[i].secret = r.Bytes(32)
+			if i%4 >= 2 && i%8 >= 4 {
+				out[i].secret = r.Bytes(1 + r.Intn(100))
+			}
+			out[i].pw = []byte(fmt.Sprintf("concurrent pässword %d", i%3)) // passwords repeat
+		}
+		os.WriteFile(cur, []byte(`{"phase":"concurrent creations under the real random source"}`), 0o644)
+		var wg3 sync.WaitGroup
+		for k := 0; k < 8; k++ {
+			wg3.Add(1)
+			go func(k int) {
+				defer wg3.Done()
+				for _, i := range []int{k, k + 8} {
+					func() {
+						m := &out[i]
+						defer func() {
+							if rec := recover(); rec != nil {
+								m.panicked = fmt.Sprint(rec)
+							}
+						}()
+						switch m.variant {
+						case 0:
+							m.wf = keystorev3.NewWalletFileLight(string(m.pw), secp256k1.KeyPairFromBytes(m.secret))
+						case 1:
+							m.wf = keystorev3.NewWalletFileStandard(string(m.pw), secp256k1.KeyPairFromBytes(m.secret))
+						case 2:
+							m.wf = keystorev3.NewWalletFileCustomBytesLight(string(m.pw), m.secret)
+						default:
+							m.wf = keystorev3.NewWalletFileCustomBytesStandard(string(m.pw), m.secret)
+						}
+						m.doc = m.wf.JSON()
+					}()
+				}
+			}(k)
+		}
+		wg3.Wait()
+		for i := range out {
+			m := &out[i]
+			c.st.Hit("concurrent-creation")
+			d := desc{Kind: "new", Variant: variants[m.variant], Password: hex.EncodeToString(m.pw), Secret: hex.EncodeToString(m.secret), Doc: string(m.doc),
+				Note: "created concurrently with 7 other creations under the real crypto/rand (not replayable bit for bit)"}
+			if m.panicked != "" {
+				c.fail("creating a wallet file panicked ("+m.panicked+")", d)
+				continue
+			}
+			if m.variant < 2 {
+				m.secret = secp256k1.KeyPairFromBytes(m.secret).PrivateKeyBytes()
+			}
+			tree, ok := parseJSON(m.doc)
+			if !ok {
+				c.fail("JSON() of a new wallet file is not valid JSON", d)
+				continue
+			}
+			ownKey, own := v3decrypt(newTables(), tree, m.pw)
+			if own != "ok" || !bytes.Equal(ownKey, m.secret) {
+				c.fail("a new wallet file (created concurrently with others) is not decrypted to the key by an independent V3 implementation ("+own+")", d)
+			}
+			if o := implRead(m.doc, m.pw); o.cls != 0 || !bytes.Equal(o.key, m.secret) {
+				c.fail("a new wallet file (created concurrently with others) is not read back to the key", d)
+			}
+			if dd := v3parse(tree); dd.ok {
+				if len(dd.salt) != 32 || len(dd.iv) != 16 || c.salts[string(dd.salt)] || c.salts[string(dd.iv)] || bytes.Equal(dd.salt[:16], dd.iv) {
+					c.fail("two creations share a salt or IV", d)
+				}
+				c.salts[string(dd.salt)] = true
+				c.salts[string(dd.iv)] = true
+			}
+			c.news = append(c.news, newRec{wf: m.wf, first: m.doc, secret: m.secret, d: d})
+		}
+	}
+	// (d)
+	for i, rr := range c.reads {
+		for pass, o := range []readObs{rr.o, second[i]} {
+			if o.cls != 0 || o.w == nil {
+				continue
+			}
+			c.st.Hit("retained-read-wallet-rechecked")
+			if o2 := observe(o.w); !sameObs(o, o2) {
+				c.fail(fmt.Sprintf("the wallet returned for this file held key=%x address=%x id=%x when it was returned and key=%x address=%x id=%x at the end of the run",
+					o.key, o.addr, o.id, o2.key, o2.addr, o2.id), note(rr.d, fmt.Sprintf("retained wallet of pass %d", pass+1)))
+				break
+			}
+		}
+	}
+	for _, nr := range c.news {
+		if nr.wf == nil {
+			continue
+		}
+		c.st.Hit("retained-new-wallet-rechecked")
+		var again, key []byte
+		ver := 0
+		var addr2 []byte
+		func() {
+			defer func() { recover() }()
+			again = nr.wf.JSON()
+			key = append([]byte{}, nr.wf.PrivateKey()...)
+			ver = nr.wf.GetVersion()
+			if len(nr.addr) > 0 {
+				kp := nr.wf.KeyPair()
+				addr2 = append([]byte{}, kp.Address[:]...)
+			}
+		}()
+		switch {
+		case !bytes.Equal(again, nr.first):
+			c.fail("JSON() of a new wallet at the end of the run differs from its JSON() right after creation (other wallets were created in between)", note(nr.d, "retained new wallet; JSON() now: "+string(again)))
+		case !bytes.Equal(key, nr.secret) || ver != 3 || !bytes.Equal(addr2, nr.addr):
+			c.fail(fmt.Sprintf("a new wallet holds key=%x version=%d address=%x at the end of the run (created for key=%x address=%x)", key, ver, addr2, nr.secret, nr.addr), note(nr.d, "retained new wallet"))
+		}
 	}
 }
 
